@@ -25,10 +25,9 @@ import (
 
 // ---- workload 3b: one client's transport cache under concurrent round trips ------
 
-const (
-	tripperLifetime     = 5 * time.Minute // how long an unused transport may stay (library constant, restated)
-	tripperReapInterval = time.Minute
-)
+// how long an unused transport may stay, and how often the reaper looks: the
+// library's own figures (the property names none), read through the overlay
+var tripperLifetime, tripperReapInterval = fclient.VerifTripperTimes()
 
 type rtOp struct {
 	dest  string
@@ -117,7 +116,14 @@ func bodyTransports(r *sim.Run) {
 		w.n.setState(netip.MustParseAddr("203.0.113.127"), ipRefused)
 		r.Logf("network: 203.0.113.127 refuses connections")
 	}
-	dests := []string{"t0.example:8448", "t0.example:443", "t1.example:8448", "t2.example:8448", "203.0.113.7:8448", "[2001:db8::1]:8448"}
+	if t.Chance(300) {
+		// a listener that comes up just too late for the first attempt: the
+		// client's one retry (with a fresh resolution) must reach it, under
+		// the same Host and TLS name
+		w.n.setState(netip.MustParseAddr("203.0.113.7"), ipRefusedOnce)
+		r.Logf("network: 203.0.113.7 refuses the first connection attempt")
+	}
+	dests := []string{"t0.example:8448", "t0.example:443", "t1.example:8448", "t2.example:8448", "203.0.113.7:8448", "[2001:db8::1]:8448", "t0.example", "t0.example", "t2.example"}
 	w.n.handler = func(rw http.ResponseWriter, q *http.Request, conn int) {
 		sni := ""
 		if q.TLS != nil {
@@ -151,6 +157,25 @@ func bodyTransports(r *sim.Run) {
 		return w.n.dial("fed", d, ctx, network, addr)
 	}
 	r.Defer(func() { verifrt.DialHook = nil })
+	// Lock boundaries of the transport cache are yield points: a task (or the
+	// reaper, the only other goroutine that takes that mutex) parks before
+	// every Lock and after every Unlock and the seeded scheduler decides who
+	// goes next. Goroutines net/http starts on its own carry no task identity
+	// and pass through.
+	verifrt.ResetYield()
+	s.Urgent = map[string]bool{"reaper": true}
+	verifrt.YieldHook = func(site string) {
+		name := s.CurrentTask()
+		if name == "" {
+			if !strings.Contains(site, "reaper") {
+				return
+			}
+			name = "reaper"
+		}
+		r.Probe("lock_boundary_yield")
+		s.Yield(name, "lock "+site)
+	}
+	r.Defer(func() { verifrt.YieldHook = nil })
 	keep := t.Bool()
 	// a request timeout that no sequence of sleeps below can reach: a client
 	// timeout in mid-dial makes net/http race its own cancellation
@@ -206,6 +231,7 @@ func bodyTransports(r *sim.Run) {
 		w.checkTransports("after step")
 	}
 	s.RunAll()
+	verifrt.YieldHook = nil // the scheduler loop is over: nobody would release a parked reaper
 	w.flush()
 	r.Nontriv = true
 	if r.Failed() {
@@ -241,6 +267,7 @@ func (w *rtWorld) checkTransports(where string) {
 		last := tr[k]
 		_, known := w.used[k]
 		r.Check(known, "C19", "transport_cache", "phantom_transport", "%s: a transport for TLS name %q is cached but no round trip for that name was ever started", where, k)
+		r.Check(!last.IsZero(), "C19", "transport_cache", "unstamped_transport", "%s: the transport for %q is in the cache without a last-used time: the reaper, which reads it under the same mutex, would fail on it", where, k)
 		r.Check(!last.After(now), "C19", "transport_cache", "last_used_in_future", "%s: transport %q last used %v in the future", where, k, last.Sub(now))
 		// a reaper pass happens every interval; an entry unused for longer than
 		// lifetime + 2 intervals has survived at least one pass it should not have
